@@ -100,6 +100,7 @@ static void do_fork(Kernel *k, Thread *t) {
   c->rlim_cur = k->caller->rlim_cur;
   c->rlim_max = k->caller->rlim_max;
   c->mask = t->mask;
+  c->umask_ = k->caller->umask_;
   c->handle = t->handle;
   c->start_op = t->op;
   c->child_phase = true;
@@ -427,6 +428,7 @@ void child_phase_end_forkmode() {
   img->forked_only = true;
   img->cwd = c->cwd;
   img->mask = c->mask;
+  img->umask_ = c->umask_;
   memcpy(img->disp, c->disp, sizeof img->disp);
   img->t_ns = K->now_ns;
   for (size_t fd = 0; fd < c->fds.size(); fd++) {
